@@ -87,7 +87,15 @@ func VerifC18Signals() {
 		verifrt.Assume(c18IsShutdown(sig))
 		nt.ch <- sig
 	}()
-	status := h.Handle(context.Background())
+	// the context given to Handle may already be done (cancelled with the real
+	// context package): every service is still shut down, once, in order
+	ctx := context.Background()
+	if verifrt.Bool2() {
+		cctx, cancel := context.WithCancelCause(ctx)
+		cancel(nil)
+		ctx = cctx
+	}
+	status := h.Handle(ctx)
 	verifrt.Assert(atomic.LoadInt32(&beforeShutdown) == 0, "Shutdown was called before a shutdown signal arrived")
 	// expected calls: reverse registration order, once each, stopping only
 	// at a panicking service
